@@ -689,6 +689,24 @@ fn lower_fn_parts(sig: &mut Signature, block: &mut Block, errors: &mut Vec<Strin
     let mut mk = Markers { n: 0 };
     mk.mark_block(block);
     let stats = Stats { slice_pats: lw.n_slice_pats, casts: lw.n_casts, loops: mk.n };
+    // A2: a non-unit tail expression `e` becomes `let ret__ = e; <BODY_END marker>; ret__`
+    // (a place for proof hints after the last call; evaluation order is unchanged)
+    let returns_value = match &sig.output {
+        ReturnType::Default => false,
+        ReturnType::Type(_, t) => !matches!(&**t, Type::Never(_)),
+    };
+    if returns_value {
+        if let Some(Stmt::Expr(e, None)) = block.stmts.last().cloned() {
+            let is_loop = matches!(e, Expr::Verbatim(_) | Expr::Loop(_) | Expr::While(_));
+            if !is_loop {
+                block.stmts.pop();
+                let be = ident("__K2V_BODY_END_S__");
+                block.stmts.push(parse_quote! { let ret__ = #e; });
+                block.stmts.push(parse_quote! { #be; });
+                block.stmts.push(Stmt::Expr(parse_quote! { ret__ }, None));
+            }
+        }
+    }
     let stmts = &block.stmts;
     let spec = ident("__K2V_SPEC__");
     let bs = ident("__K2V_BODY_START_S__");
